@@ -182,15 +182,18 @@ mksets (void)
         }
   /* yescrypt cost fields through every size class of their variable-length encoding (1 character up to 48, 2 characters beyond) */
   {
-    static const unsigned vs[] = { 2, 3, 47, 48, 49, 50, 51, 52, 63, 64, 65, 111, 112, 113, 114, 115, 130 };
+    static const unsigned vs[] = { 2, 3, 47, 48, 49, 50, 51, 52, 63, 64, 65, 111, 112, 113, 114, 115, 130,
+      /* three-character encodings start at 561 (r, t) / 562 (p) */
+      559, 560, 561, 562, 563, 600, 1000, 2000 };
     char ys[120];
     for (int w = 0; w < 2; w++)
       for (unsigned i = 0; i < sizeof vs / sizeof *vs; i++)
         {
           vh_ysetting (ys, sizeof ys, w ? "$gy$" : "$y$", 2, vs[i], 1, 0, "saltSALT");
           addset (w ? M_GOST : M_YESCRYPT, 0, "%s", ys);
-          vh_ysetting (ys, sizeof ys, w ? "$gy$" : "$y$", 10, 1, vs[i], 0, "saltSALT");
-          addset (w ? M_GOST : M_YESCRYPT, 0, "%s", ys);
+          vh_ysetting (ys, sizeof ys, w ? "$gy$" : "$y$", vs[i] > 250 ? 13 : 10, 1, vs[i], 0, "saltSALT");
+          if (vs[i] <= 1000)
+            addset (w ? M_GOST : M_YESCRYPT, 0, "%s", ys);
           vh_ysetting (ys, sizeof ys, w ? "$gy$" : "$y$", 7, 1, 1, vs[i], "saltSALT");
           addset (w ? M_GOST : M_YESCRYPT, 0, "%s", ys);
         }
